@@ -495,7 +495,9 @@ class AsarrayModel(Contract):
     doc = "value-preserving conversion into namespace xp"
 
     def model(self, I, info, bound, args, kwargs, node):
-        return I.reg.handlers["xp.asarray"](I, [args[0]], {}, node)
+        h = I.reg.handlers["xp.asarray"]
+        from pyvc.values import Mod
+        return h(I, ([Mod("xp")] if getattr(h, "_wants_mod", False) else []) + [args[0]], {}, node)
 
 
 class RestoreFromCheckpointModel(Contract):
